@@ -11,13 +11,16 @@
 (*     square-rooted quantities are carried squared (rmse2, cvrmse2, ...)  *)
 (*  in.kind = "gate":  [cv, pn] each in {"none", "low", "mid", "high", "eqown"} *)
 (*     out = [res, poor]   the hourly poor-fit decision                    *)
+(*  in.kind = "tq": [conf, tail, dof]  ReportingMetrics(confidence_level,   *)
+(*        t_tail) on a baseline with `dof` degrees of freedom              *)
+(*     out = [res, fl, ce]  floor / ceiling of 1000 x t_stat               *)
 (*  in.kind = "stored": [fam, name, prior]  a real fit (prior: the meter   *)
 (*        the same model object was fitted on before, or "none")           *)
 (*     out = [res, same, gateOk, asFresh]   stored metrics = metrics of    *)
 (*        predict(baseline); asFresh: the reported statistics equal those  *)
 (*        of a fresh model object fitted on the same data                  *)
 (***************************************************************************)
-EXTENDS Integers, Sequences, FiniteSets, TLC, Rat, SequencesExt
+EXTENDS Integers, Sequences, FiniteSets, TLC, Rat, SequencesExt, TTable
 
 Pairs(in) == SelectSeq([i \in 1..Len(in.obs) |-> <<in.obs[i], in.pred[i]>>], LAMBDA t : t[1].f /\ t[2].f)
 Obs(in)  == LET ps == Pairs(in) IN [i \in 1..Len(ps) |-> ps[i][1].v]
@@ -99,6 +102,14 @@ Clauses(in, out) ==
     [] in.kind = "gate" ->
       << <<"GateReturns", out.res = "ok">>,
          <<"HourlyPoorFitExactlyWhenBothThresholdsMissed", out.res = "ok" => (out.poor <=> HourlyPoor(in.cv, in.pn))>> >>
+    [] in.kind = "tq" ->
+      \* the t quantile that scales the savings uncertainty is the Student quantile of the REQUESTED tail and confidence level (to 1/1000)
+      << <<"MetricsReturn", out.res = "ok">>,
+         <<"TQuantileIsThatOfTheRequestedTailAndLevel", out.res = "ok" =>
+              \* (the statement does not fix how the degrees of freedom of the quantile are counted: the library takes one fewer than the
+              \*  baseline's n - p; both counts are admitted - a quantile of the wrong tail or level is far outside either)
+              \E k \in 1..Len(TQuantiles) : /\ TQuantiles[k].conf = in.conf /\ TQuantiles[k].tail = in.tail /\ TQuantiles[k].dof \in {in.dof, in.dof - 1}
+                                            /\ out.fl <= TQuantiles[k].q + 1 /\ out.ce >= TQuantiles[k].q - 1>> >>
     [] in.kind = "stored" ->
       << <<"FitReturns", out.res = "ok">>,
          <<"StoredHourlyMetricsAreThoseOfPredictBaseline", (out.res = "ok" /\ in.fam = "hourly") => out.same>>,
